@@ -162,6 +162,68 @@ def make_profile_instance(rng, nind=1, trios=(), min_cols=9, max_cols=20, max_re
             "recomb": [rng.choice(recomb_choices) for _ in range(n)]}
 
 
+def make_wide_instance(rng, k, nind=1, trios=(), quals=(10, 20, 30, 0, 10, 20), ncols=3):
+    """k reads that are ALL active in the middle column(s) (coverage k, 2^k bipartitions: beyond any batch size of the
+    Gray-code enumeration), at least one of them spanning a middle column without covering it (BLANK entry) and followed
+    in read order by reads that do cover it; decimal qualities and priors keep the model's exact rationals small."""
+    mid = list(range(1, ncols - 1))
+    reads = []
+    for _ in range(k):
+        kind = rng.choice(["full", "full", "gap", "left", "right"])
+        if kind == "full":
+            cols = list(range(ncols))
+        elif kind == "gap":
+            drop = set(rng.sample(mid, rng.randint(1, len(mid))))
+            cols = [c for c in range(ncols) if c not in drop]
+        elif kind == "left":
+            cols = list(range(0, ncols - 1))
+        else:
+            cols = list(range(1, ncols))
+        reads.append({"sample": rng.randrange(nind), "vars": [[c, rng.randint(0, 1), rng.choice(quals)] for c in cols]})
+    reads.sort(key=lambda r: r["vars"][0][0])
+    # force a gapped read early in read order with a covering read after it
+    gi = rng.randrange(0, max(1, k // 2))
+    g0 = reads[gi]
+    g0["vars"] = [[0, rng.randint(0, 1), rng.choice(quals)], [ncols - 1, rng.randint(0, 1), rng.choice(quals)]]
+    reads[-1]["vars"] = [[c, rng.randint(0, 1), rng.choice(quals)] for c in range(reads[-1]["vars"][0][0], ncols)]
+    if len(reads[-1]["vars"]) < 2:
+        reads[-1]["vars"] = [[c, rng.randint(0, 1), rng.choice(quals)] for c in range(ncols - 2, ncols)]
+    reads.sort(key=lambda r: r["vars"][0][0])
+    pm = rng.choice(["uniform", "third", "dyadic"])
+    priors = []
+    for _ in range(nind):
+        row = []
+        for _ in range(ncols):
+            if pm == "uniform":
+                row.append([0.25, 0.5, 0.25])
+            elif pm == "third":
+                row.append([1 / 3.0, 1 / 3.0, 1 / 3.0])
+            else:
+                a = rng.randint(1, 14)
+                b = rng.randint(1, 15 - a)
+                row.append([a / 16.0, b / 16.0, (16 - a - b) / 16.0])
+        priors.append(row)
+    return {"ncols": ncols, "nind": nind, "trios": [list(t) for t in trios], "reads": reads, "priors": priors,
+            "recomb": [rng.choice((0, 10, 20, 30)) for _ in range(ncols)]}
+
+
+def gap_before_cover(inst):
+    """largest coverage of a column in which some active read has a BLANK entry and a later read (in read order)
+    covers the column (0 if there is no such column)"""
+    best = 0
+    for col in active_columns(inst):
+        seen_gap = False
+        hit = False
+        for e in col:
+            if e[2] is None:
+                seen_gap = True
+            elif seen_gap:
+                hit = True
+        if hit:
+            best = max(best, len(col))
+    return best
+
+
 def permute_individuals(rng, inst):
     """relabel the individuals by a random permutation (the child need not be the last individual, the father not
     the first): trios, read samples and prior rows are mapped consistently"""
@@ -207,6 +269,9 @@ def shape_tallies(inst):
         t["positions=None"] = 1
     if not inst["reads"]:
         t["empty-readset"] = 1
+    gb = gap_before_cover(inst)
+    if gb:
+        t["gap-then-covering-read@cov=%d" % gb] = 1
     return t
 
 
